@@ -432,7 +432,7 @@ Proof.
     replace (length pre + length (rkey (RLen n b)) + length (ref_varint (N.of_nat (length b))) + length b)%nat
       with (length pre + length (renc (RLen n b)))%nat
       by (unfold renc; rewrite app_length; cbn [rpayload rvalue]; rewrite app_length; lia).
-    rewrite Hloop. cbn [layout_ok tnum] in Hlay. cbn [tdump tnum].
+    rewrite Hloop. cbn [layout_ok tnum rnum] in Hlay. cbn [tdump tnum rnum].
     destruct (paths_match (cstrings conf) (path ++ [n])); [reflexivity|].
     destruct Hlay as [Hc|Hc]; [discriminate Hc|]. rewrite Hc. reflexivity.
   - (* expanded nested message *)
